@@ -220,8 +220,12 @@ def run(ctx):
                           "module source is read/parsed before the cycle test on the load stack",
                           site=f"NodeRequire.evaluate: {norm_(x.func)} after pushModuleStack")
     push = model.method(P, "Environment", "pushModuleStack")
-    ptxt = norm_(push.node)
-    ok = "if moduleidentifier in base.modulestack: raise CklRuntimeError(" in ptxt.replace("\n", " ")
+    from .common import root_field_pred
+    is_stack = root_field_pred(model, push, "modulestack")
+    ok = any(isinstance(n, ast.If) and isinstance(n.test, ast.Compare) and len(n.test.ops) == 1
+             and isinstance(n.test.ops[0], ast.In) and norm_(n.test.left) == push.params[1]
+             and is_stack(n.test.comparators[0]) and n.body and isinstance(n.body[0], ast.Raise)
+             and "CklRuntimeError" in norm_(n.body[0].exc) for n in ast.walk(push.node))
     ctx.check("C11.cycle", push, None, ok, "a repeated identifier on the load stack is not reported as an error",
               expr="cycle raise", site="Environment.pushModuleStack: raises on a repeated identifier")
     ok = "environment.pushModuleStack(moduleidentifier, self.pos)" in txt
@@ -229,52 +233,186 @@ def run(ctx):
               expr="push identifier", site="NodeRequire.evaluate: pushes moduleidentifier")
 
     # ---------------------------------------------------------------- C11.import (parser)
-    ps = model.func(P, "parser", "parse_statement")
-    loop = None
-    for n in ast.walk(ps.node):
-        if isinstance(n, ast.While) and any(isinstance(x, ast.Assign) and norm(x.targets[0]).startswith("symbols[")
-                                            for x in ast.walk(n)):
-            loop = n
-    if loop is None:
-        ctx.broken("parse_statement", "import-list loop not found")
-    # per-iteration definite assignment of every name read by the store
-    store = [x for x in ast.walk(loop) if isinstance(x, ast.Assign) and norm(x.targets[0]).startswith("symbols[")][0]
-    used = {n.id for n in ast.walk(store) if isinstance(n, ast.Name) and n.id not in ("symbols", "lexer")}
-    fake = ast.FunctionDef(name="_iter", args=ast.arguments(posonlyargs=[], args=[], kwonlyargs=[], kw_defaults=[],
-                                                            defaults=[], vararg=None, kwarg=None),
-                           body=loop.body, decorator_list=[], returns=None, type_comment=None, lineno=1, col_offset=0)
+    import_rules(ctx, model)
+
+
+
+def _fragment(stmts):
+    f = ast.FunctionDef(name="_frag", args=ast.arguments(posonlyargs=[], args=[], kwonlyargs=[], kw_defaults=[],
+                                                         defaults=[], vararg=None, kwarg=None),
+                        body=stmts, decorator_list=[], returns=None, type_comment=None, lineno=1, col_offset=0)
     if hasattr(ast, "TypeVar"):
-        fake.type_params = []
-    gi = CFG(fake, implicit_exc=False)
+        f.type_params = []
+    return f
 
-    def assigned(node, label):
-        a = node.ast
-        if a is None or node.kind == "for":
-            return None
-        out = set()
-        if isinstance(a, ast.Assign):
-            for t in a.targets:
+
+def _is_match_ident(e):
+    return isinstance(e, ast.Call) and norm(e.func) == "lexer.matchIdentifier"
+
+
+def import_rules(ctx, model):
+    """The `require <spec> [unqualified | import [a as x, b] | as name]` forms, decided on the paths of the code that
+    parses them (wherever it lives: inline in parse_statement or in helpers it calls)."""
+    from .common import resolve_static_call
+    parser = model.module(P, "parser")
+    ps = model.func(P, "parser", "parse_statement")
+    # 1. the import-list loop: a `while` that stores D[k] = v per entry
+    loops = []
+    for f in parser.funcs.values():
+        for n in ast.walk(f.node):
+            if isinstance(n, ast.While) and "']'" in norm(n.test) and any(
+                    isinstance(x, ast.Assign) and isinstance(x.targets[0], ast.Subscript) for x in ast.walk(n)) \
+                    and any(_is_match_ident(x) for x in ast.walk(n)) and any(
+                        isinstance(x, ast.Call) and norm(x.func) == "lexer.matchIf" and x.args
+                        and norm(x.args[0]) == "'as'" for x in ast.walk(n)):
+                loops.append((f, n))
+    if len(loops) != 1:
+        ctx.broken("parser.py", f"import-list loop not found ({len(loops)} candidates)")
+    lf, loop = loops[0]
+    g = CFG(_fragment(loop.body), implicit_exc=False)
+    n_paths = 0
+    pending = []
+    for path in g.paths(max_paths=500):
+        env, ids, as_taken, stores = {}, 0, False, []
+
+        def ev(e):
+            nonlocal ids
+            if _is_match_ident(e):
+                ids += 1
+                return f"ID{ids}"
+            if isinstance(e, ast.Name):
+                return env.get(e.id, f"stale:{e.id}")
+            if isinstance(e, ast.Constant):
+                return repr(e.value)
+            if isinstance(e, ast.BoolOp):
+                vals = [ev(v) for v in e.values]
+                st_ = [v for v in vals if v.startswith("stale:")]
+                if st_:
+                    return st_[0]
+                if isinstance(e.op, ast.Or) and vals[0].startswith("ID"):
+                    return vals[0]          # an identifier is a non-empty string: truthy
+                return "unknown:" + norm(e)
+            return "unknown:" + norm(e)
+
+        for node, label in path:
+            a = node.ast
+            if a is None:
+                continue
+            if node.kind == "test":
+                for x in ast.walk(a):
+                    if isinstance(x, ast.Call) and norm(x.func) == "lexer.matchIf" and x.args \
+                            and norm(x.args[0]) == "'as'" and label == "true":
+                        as_taken = True
+                continue
+            if isinstance(a, ast.Assign) and len(a.targets) == 1:
+                t = a.targets[0]
                 if isinstance(t, ast.Name):
-                    out.add(t.id)
-        return out or None
+                    env[t.id] = ev(a.value)
+                elif isinstance(t, ast.Subscript):
+                    k = ev(t.slice)
+                    v = ev(a.value)
+                    stores.append((k, v, a))
+        if not stores:
+            continue
+        n_paths += 1
+        for k, v, a in stores[-1:]:
+            for side, val in (("key", k), ("value", v)):
+                if val.startswith("stale:"):
+                    ctx.check("C11.import", lf, a, False,
+                              f"`{val[6:]}` used by the import-list entry is not assigned on every path of the same loop "
+                              f"iteration: an alias from an earlier entry leaks into later ones",
+                              expr=f"{norm(a)} uses {val[6:]}", site=f"import list: `{val[6:]}` is (re)assigned in each iteration")
+                elif val.startswith("unknown:"):
+                    pending.append((lf.qual, f"import-list entry {side} `{val[8:]}` not understood"))
+            if k.startswith(("stale:", "unknown:")) or v.startswith(("stale:", "unknown:")):
+                continue
+            want = ("ID1", "ID2") if as_taken else ("ID1", "ID1")
+            ctx.check("C11.import", lf, a, (k, v) == want,
+                      f"an import-list entry {'with' if as_taken else 'without'} `as` binds {k} -> {v} (expected "
+                      f"{want[0]} -> {want[1]}: the symbol, then its alias or itself)",
+                      expr=f"import entry {'as' if as_taken else 'plain'}",
+                      site=f"import list: entry {'with alias' if as_taken else 'without alias'} stored as symbol -> {'alias' if as_taken else 'symbol'}")
+    if pending and not any(f_.rule == "C11.import" for f_ in ctx.findings):
+        ctx.broken(*pending[0])
+    if n_paths < 2:
+        ctx.broken(lf.qual, "import-list loop: fewer than two storing paths")
 
-    defs = must_pass(gi, assigned)
-    for node in gi.nodes:
-        if node.ast is store:
-            have = defs.get(node.id, frozenset())
-            for u in sorted(used):
-                ctx.check("C11.import", ps, store, u in have,
-                          f"`{u}` used by the import-list entry is not assigned on every path of the same loop "
-                          f"iteration: an alias from an earlier entry leaks into later ones",
-                          expr=f"{norm(store)} uses {u}", site=f"import list: `{u}` is (re)assigned in each iteration")
-    ok = norm(store) == "symbols[symbol] = symbolname"
-    ctx.check("C11.import", ps, store, ok, "import-list entry is not stored as symbols[symbol] = symbolname",
-              site="import list: symbols[symbol] = symbolname")
-    ok = any(isinstance(n, ast.If) and norm(n.test) == "lexer.matchIf('as', 'keyword')"
-             and [norm(s) for s in n.body] == ["symbolname = lexer.matchIdentifier()"] for n in ast.walk(loop))
-    ctx.check("C11.import", ps, None, ok, "`as` alias is not read with matchIdentifier into symbolname",
-              expr="as alias", site="import list: `as` alias parsed per entry")
-    # the require node stores the three forms as parsed
-    ok = "return NodeRequire(modulespec, name, unqualified, symbols, pos)" in norm(ps.node)
-    ctx.check("C11.import", ps, None, ok, "NodeRequire constructed with different arguments", expr="NodeRequire(..)",
-              site="parse_statement: NodeRequire(modulespec, name, unqualified, symbols, pos)")
+    # 2. the three require forms reach NodeRequire(modulespec, name, unqualified, symbols, pos) as parsed
+    top = None
+    for n in ast.walk(ps.node):
+        if isinstance(n, ast.If) and norm(n.test) == "lexer.matchIf('require', 'keyword')":
+            top = n
+    if top is None:
+        ctx.broken("parse_statement", "`require` branch not found")
+    body, owner = top.body, ps
+    if len(body) == 1 and isinstance(body[0], ast.Return) and isinstance(body[0].value, ast.Call):
+        callee = resolve_static_call(model, ps, body[0].value)
+        if callee is not None:
+            body, owner = callee.node.body, callee
+    g = CFG(_fragment(body), implicit_exc=False)
+    dict_helpers = {lf.name} if lf is not ps and lf is not owner else set()
+    seen_forms = set()
+    for path in g.paths(max_paths=3000):
+        env, form, ids = {}, "plain", 0
+        ctor = None
+        for node, label in path:
+            a = node.ast
+            if a is None:
+                continue
+            if node.kind == "test":
+                for x in ast.walk(a):
+                    if isinstance(x, ast.Call) and norm(x.func) == "lexer.matchIf" and x.args and label == "true":
+                        t0 = norm(x.args[0])
+                        if t0 == "'unqualified'":
+                            form = "unqualified"
+                        elif "'import'" in t0:
+                            form = "import"
+                        elif t0 == "'as'" and not any(x2 is loop for x2 in ast.walk(_fragment(body))) or \
+                                (t0 == "'as'" and not any(y is x for y in ast.walk(loop))):
+                            form = "as"
+                continue
+            if isinstance(a, ast.Assign) and len(a.targets) == 1 and isinstance(a.targets[0], ast.Name):
+                v = a.value
+                nm = a.targets[0].id
+                if _is_match_ident(v):
+                    ids += 1
+                    env[nm] = "IDENT"
+                elif isinstance(v, ast.Constant):
+                    env[nm] = repr(v.value)
+                elif isinstance(v, (ast.Dict,)) or norm(v) == "dict()":
+                    env[nm] = "DICT"
+                elif isinstance(v, ast.Call) and isinstance(v.func, ast.Name) and v.func.id in dict_helpers:
+                    env[nm] = "DICT"
+                elif isinstance(v, ast.Call) and norm(v.func) == "parse_expression":
+                    env[nm] = "SPEC"
+                elif isinstance(v, ast.Call) and norm(v.func) == "lexer.getPos":
+                    env[nm] = "POS"
+                else:
+                    env[nm] = "unknown:" + norm(v)[:40]
+            for x in ast.walk(a):
+                if isinstance(x, ast.Call) and norm(x.func) == "NodeRequire":
+                    ctor = x
+        if ctor is None:
+            continue
+        vals = []
+        for e in ctor.args:
+            if isinstance(e, ast.Name):
+                vals.append(env.get(e.id, "unknown:" + e.id))
+            elif isinstance(e, ast.Constant):
+                vals.append(repr(e.value))
+            elif _is_match_ident(e):
+                vals.append("IDENT")
+            else:
+                vals.append("unknown:" + norm(e)[:40])
+        want = {"plain": ["SPEC", "None", "False", "None", "POS"],
+                "unqualified": ["SPEC", "None", "True", "None", "POS"],
+                "import": ["SPEC", "None", "False", "DICT", "POS"],
+                "as": ["SPEC", "IDENT", "False", "None", "POS"]}[form]
+        if any(v.startswith("unknown:") for v in vals):
+            ctx.broken(owner.qual, f"NodeRequire argument not understood on the `{form}` form: {vals}")
+        seen_forms.add(form)
+        ctx.check("C11.import", owner, ctor, vals == want,
+                  f"the `{form}` form of require builds NodeRequire{tuple(vals)}, expected {tuple(want)}",
+                  expr=f"NodeRequire for {form}", site=f"require ({form}): NodeRequire{tuple(want)}")
+    if seen_forms != {"plain", "unqualified", "import", "as"}:
+        ctx.broken(owner.qual, f"require forms found: {sorted(seen_forms)}")
